@@ -27,6 +27,10 @@ class MemFS:
         self.files: dict[str, str] = {}
         self.dirs: set[str] = set()
         self.rows_written: dict[str, list[list[str]]] = {}     # path -> rows handed to csv.writer.writerow
+        # what Tag.archive() returned between the creation of a writer and its writerow (the world wraps every tag's
+        # archive()): the values the statement calls "archived", independent of what the archiver then does with them
+        self.archived_now: list[tuple[str, object]] = []
+        self.rows_archived: dict[str, list[list[str] | None]] = {}   # path -> per row: the non-None archive() values
         self.free_mb = 1000.0
 
     def open(self, path, mode="r", newline=None, encoding=None):
@@ -69,9 +73,15 @@ class MemFS:
             def __init__(self, f, **kw):
                 self._w = _csv.writer(f, **kw)
                 self._path = getattr(f, "path", "?")
+                fs.archived_now = []
 
             def writerow(self, row):
+                first = not fs.rows_written.get(self._path)
                 fs.rows_written.setdefault(self._path, []).append([str(x) for x in row])
+                vals = [v for _, v in fs.archived_now if v is not None]
+                fs.archived_now = []
+                # the header row (first of a file) names the tags; every other row carries their values
+                fs.rows_archived.setdefault(self._path, []).append(None if first else [str(v) for v in vals])
                 return self._w.writerow(row)
 
         csvp = SimpleNamespace(writer=_Writer, QUOTE_NONE=_csv.QUOTE_NONE, reader=_csv.reader)
